@@ -1,5 +1,7 @@
 package csv
 
+import "go.pennock.tech/tabular"
+
 // C05: CSV output parses back, under RFC 4180 all-fields-quoted syntax, to exactly the table.
 
 // vf4180Parse is a strict RFC 4180 reader for the all-fields-quoted dialect: every field is quoted,
@@ -211,4 +213,54 @@ func VerifC05_success() {
 	}
 	vfAssert(vfOr(err != nil, good), "success-means-the-output-parses-back-to-the-table")
 	vfObserveBool("err", err != nil)
+}
+
+// VerifC05_long: fields of a few thousand bytes (around and beyond 4096) come back in place and whole,
+// in any column; and a zero-value Row added to the table is a row like any other (a record of empty fields).
+func VerifC05_long() {
+	n := []int{100, 4093, 4096, 5000}[vfChoice("len", 4)]
+	b := make([]byte, n)
+	for i := range b {
+		b[i] = byte('a' + i%26)
+	}
+	if vfChoice("with-quote", 2) == 1 {
+		b[n/2] = '"'
+	}
+	long := string(b)
+	t := New()
+	t.AddHeaders("h1", "h2", "h3")
+	pos := vfChoice("pos", 3)
+	row := []interface{}{"x", "y", "z"}
+	row[pos] = long
+	t.AddRowItems(row...)
+	zero := vfChoice("zero-value-row", 2) == 1
+	if zero {
+		t.AddRow(&tabular.Row{})
+	}
+	t.AddRowItems("last")
+	out, err := t.Render()
+	vfAssert(err == nil, "render-ok")
+	recs, ok := vf4180Parse(out)
+	vfAssert(ok, "parses-strictly")
+	want := 3
+	if zero {
+		want = 4
+	}
+	vfAssert(vfOr(!ok, len(recs) == want), "record-count")
+	if !ok || len(recs) != want {
+		return
+	}
+	for i := range recs {
+		vfAssert(len(recs[i]) == 3, "field-count")
+		if len(recs[i]) != 3 {
+			return
+		}
+	}
+	for j := 0; j < 3; j++ {
+		vfAssert(recs[1][j] == row[j].(string), "field-roundtrip")
+	}
+	if zero {
+		vfAssert(vfAnd(recs[2][0] == "", vfAnd(recs[2][1] == "", recs[2][2] == "")), "padding-empty")
+	}
+	vfAssert(recs[want-1][0] == "last", "field-roundtrip")
 }
